@@ -108,7 +108,7 @@ theorem ok_any_fuel (prec : Prec) : ∀ n,
                 | ok r' =>
                   obtain ⟨xs, rest''⟩ := r'
                   have hl2 := parseArgs_len hpa
-                  simp only [hpa, Except.ok.injEq, Prod.mk.injEq, Args.cons.injEq, true_and] at h
+                  simp only [hpa] at h
                   obtain ⟨_, rfl⟩ := h
                   omega
               · rw [parseArgs.eq_3]
